@@ -477,7 +477,7 @@ def _real_keyboard_case(name, writes, session_name):
     lnk = os.path.join(code, "Rules", "Default")
     if not os.path.islink(lnk) and not os.path.exists(lnk):
         try:
-            os.symlink(bigworld.shipped_dir("Default"), lnk)
+            os.symlink(bigworld.tool_dir("Default"), lnk)
         except FileExistsError:
             pass
     for ext in (".sav", ".omn"):
